@@ -27,6 +27,9 @@ Proof.
   unfold mem, s_digits_dot, s_ipcharset. simpl. rewrite !orb_false_r. rewrite !orb_true_iff. intuition.
 Qed.
 
+Lemma forallb_impl_l {A} (p q : A -> bool) l : (forall x, p x = true -> q x = true) -> forallb p l = true -> forallb q l = true.
+Proof. intros H. induction l; cbn [forallb]; [auto|]. intros E. apply andb_true_iff in E as [E1 E2]. rewrite (H _ E1), IHl; auto. Qed.
+
 Lemma set_sconfig_same cfg : set_sconfig cfg (s_sconfig cfg) = cfg.
 Proof. destruct cfg; reflexivity. Qed.
 
@@ -295,28 +298,192 @@ Proof.
   intros [->| ->] H; unfold resolv_dispatch, kw; simpl (bytes_eqb _ _); cbn [orb]; apply config_lookup_noword; exact H.
 Qed.
 
-(* ------------------------------------------------------------------ C15_junk_independent (line level) *)
-Definition proved_class (j : jclass) : bool :=
-  match j with JOptionsNumeric | JSearchEmpty => false | _ => true end.
+(* ------------------------------------------------------------------ options: the full grammar *)
+Lemma split_go_all delims trim max l : forall cur acc,
+  (negb (max =? 0)%nat && (max - 1 <=? length acc)%nat) = true ->
+  split_go delims trim false false max l cur acc = sec_add trim false false acc (rev cur ++ l).
+Proof.
+  induction l as [|c r IH]; intros cur acc H; cbn [split_go].
+  - rewrite app_nil_r, frev_rev. reflexivity.
+  - rewrite H. rewrite IH by exact H. cbn [rev]. rewrite <- app_assoc. reflexivity.
+Qed.
 
+Lemma split_go_prefix d trim max n : forall rest cur,
+  forallb (fun c => negb (c =? d)) n = true ->
+  (negb (max =? 0)%nat && (max - 1 <=? 0)%nat) = false ->
+  split_go [d] trim false false max (n ++ d :: rest) cur [] =
+  split_go [d] trim false false max rest [] (sec_add trim false false [] (rev cur ++ n)).
+Proof.
+  induction n as [|c r IH]; intros rest cur Hn Hc; cbn [app split_go length]; rewrite Hc.
+  - unfold mem. cbn [existsb]. rewrite N.eqb_refl. cbn [orb]. rewrite app_nil_r, frev_rev. reflexivity.
+  - cbn [forallb] in Hn. apply andb_true_iff in Hn as [Hcd Hr]. apply negb_true_iff in Hcd.
+    unfold mem. cbn [existsb]. rewrite Hcd. cbn [orb].
+    fold (mem c []). rewrite IH by assumption. cbn [rev]. rewrite <- app_assoc. reflexivity.
+Qed.
+
+Lemma split_name_value n v :
+  forallb (fun c => negb (c =? ch_colon)) n = true -> rtrim (ltrim n) <> [] ->
+  buf_split [ch_colon] true false false 2 (n ++ ch_colon :: v) =
+  rtrim (ltrim n) :: match rtrim (ltrim v) with [] => [] | tv => [tv] end.
+Proof.
+  intros Hn Hne. unfold buf_split. rewrite (split_go_prefix ch_colon true 2 n v [] Hn eq_refl).
+  cbn [rev app]. unfold sec_add at 1. cbn [sec_trim andb].
+  destruct (rtrim (ltrim n)) as [|n0 nr] eqn:En; [congruence|].
+  rewrite split_go_all by reflexivity. cbn [rev app]. unfold sec_add. cbn [sec_trim andb app].
+  destruct (rtrim (ltrim v)); reflexivity.
+Qed.
+
+Lemma span_fst_forall p l : forallb p (fst (span p l)) = true.
+Proof. induction l as [|c r IH]; [reflexivity|]. cbn [span]. destruct (p c) eqn:E; [|reflexivity]. destruct (span p r). cbn [fst forallb] in *. rewrite E, IH. reflexivity. Qed.
+
+Lemma span_snd_head p l c r : snd (span p l) = c :: r -> p c = false.
+Proof.
+  induction l as [|x l IH]; cbn [span]; [discriminate|]. destruct (p x) eqn:E.
+  - destruct (span p l). cbn [snd] in *. exact IH.
+  - cbn [snd]. intros H. inversion H; subst. exact E.
+Qed.
+
+Lemma zeros_value v : forallb (N.eqb 48) v = true -> digits_value v = 0%Z.
+Proof.
+  unfold digits_value. assert (forall a, forallb (N.eqb 48) v = true -> fold_left (fun a d => (10 * a + digit_val d)%Z) v a = (a * 10 ^ Z.of_nat (length v))%Z) as G.
+  { induction v as [|d r IH]; intros a H; cbn [fold_left length].
+    - change (Z.of_nat 0) with 0%Z. rewrite Z.pow_0_r. lia.
+    - cbn [forallb] in H. apply andb_true_iff in H as [Hd Hr]. apply N.eqb_eq in Hd. subst d.
+      rewrite IH by exact Hr. rewrite Nat2Z.inj_succ, Z.pow_succ_r by lia. unfold digit_val. simpl (Z.of_N 48 - 48)%Z. lia. }
+  intros H. rewrite (G 0%Z H). lia.
+Qed.
+
+Lemma option_value_not_number tv : is_number tv = false -> option_value [tv] = None.
+Proof. unfold is_number, option_value, str_isnum. intros H. rewrite H. reflexivity. Qed.
+
+Lemma process_option_junk cfg t :
+  junk_option t = true ->
+  process_option cfg t = Ok cfg \/ exists st, process_option cfg t = Err st /\ st <> ARES_ENOMEM.
+Proof.
+  unfold junk_option, opt_name, opt_value.
+  pose proof (span_app (fun c => negb (c =? ch_colon)) t) as Happ.
+  pose proof (span_fst_forall (fun c => negb (c =? ch_colon)) t) as Hn.
+  set (n := fst (span (fun c => negb (c =? ch_colon)) t)) in *.
+  set (r := snd (span (fun c => negb (c =? ch_colon)) t)) in *.
+  set (key := rtrim (ltrim n)).
+  destruct (bytes_eqb key []) eqn:Ek; [discriminate|].
+  assert (key <> []) as Hkey. { intros E. rewrite E in Ek. discriminate. }
+  (* the sections the C code sees *)
+  assert (exists vr, buf_split [ch_colon] true false false 2 t = key :: vr /\
+                     (vr = [] \/ exists tv, vr = [tv] /\ tv <> [] /\
+                        match r with [] => False | _ :: v => tv = rtrim (ltrim v) end) /\
+                     (vr = [] -> match r with [] => True | _ :: v => rtrim (ltrim v) = [] end)) as (vr & Esplit & Hvr & Hvr0).
+  { destruct r as [|c v] eqn:Er.
+    - rewrite app_nil_r in Happ. rewrite <- Happ. exists []. split; [|split; [left; reflexivity|trivial]].
+      unfold buf_split. rewrite split_go_nodelim.
+      2:{ eapply forallb_impl_l; [|exact Hn]. intros x Hx. unfold mem. cbn [existsb]. rewrite orb_false_r. exact Hx. }
+      cbn [rev app]. unfold sec_add. cbn [sec_trim andb]. fold key. destruct key; [congruence|reflexivity].
+    - assert (c = ch_colon) as ->.
+      { pose proof (span_snd_head _ t c v Er) as Hc. apply negb_false_iff in Hc. apply N.eqb_eq in Hc. exact Hc. }
+      rewrite <- Happ. rewrite (split_name_value n v Hn Hkey). fold key.
+      destruct (rtrim (ltrim v)) as [|v0 vt] eqn:Ev.
+      + exists []. split; [reflexivity|]. split; [left; reflexivity|trivial].
+      + exists [v0 :: vt]. split; [reflexivity|]. split; [|discriminate].
+        right. exists (v0 :: vt). split; [reflexivity|]. split; [discriminate|reflexivity]. }
+  intros Hj. unfold process_option, buf_split_str. rewrite Esplit.
+  destruct (forallb (forallb isprint) (key :: vr)); cbn [bind]; [|right; exists ARES_EBADSTR; split; [reflexivity|discriminate]].
+  unfold kw.
+  destruct (existsb (bytes_eqb key) known_option_names) eqn:Eknown; cbn [negb] in Hj.
+  2:{ (* unknown name *)
+      left. unfold known_option_names in Eknown. cbn [existsb] in Eknown. rewrite !orb_false_r in Eknown.
+      repeat (apply orb_false_iff in Eknown as [? Eknown]).
+      repeat match goal with Hx : bytes_eqb key _ = false |- _ => rewrite Hx; clear Hx end. reflexivity. }
+  (* the value part as seen by both sides *)
+  assert (forall P : bytes -> bool,
+            match match r with [] => None | _ :: v => Some (rtrim (ltrim v)) end with Some v => negb (P v) | None => true end = true ->
+            P [] = false -> vr = [] \/ exists tv, vr = [tv] /\ P tv = false) as Hval.
+  { intros P HP HP0. destruct Hvr as [->|(tv & -> & Htv & Hr)]; [left; reflexivity|].
+    right. exists tv. split; [reflexivity|]. destruct r as [|c v]; [contradiction|]. subst tv. apply negb_true_iff in HP. exact HP. }
+  destruct (bytes_eqb key on_ndots) eqn:E1.
+  { right. exists ARES_EFORMERR. split; [|discriminate].
+    destruct (Hval is_number Hj eq_refl) as [->|(tv & -> & Hnum)]; [reflexivity|]. rewrite (option_value_not_number tv Hnum). reflexivity. }
+  destruct (bytes_eqb key on_timeout) eqn:E2, (bytes_eqb key on_retrans) eqn:E3, (bytes_eqb key on_attempts) eqn:E4, (bytes_eqb key on_retry) eqn:E5;
+    cbn [orb] in Hj |- *; try discriminate;
+    right; exists ARES_EFORMERR; (split; [|discriminate]);
+    (destruct (Hval is_positive_number Hj eq_refl) as [->|(tv & -> & Hpos)]; [reflexivity|]);
+    unfold is_positive_number in Hpos;
+    (destruct (is_number tv) eqn:Enum; [|rewrite (option_value_not_number tv Enum); reflexivity]);
+    cbn [andb] in Hpos; apply negb_false_iff in Hpos;
+    unfold option_value; unfold is_number in Enum; unfold str_isnum; rewrite Enum;
+    rewrite (zeros_value tv Hpos); reflexivity.
+Qed.
+
+Lemma set_options_loop_junk cfg ts :
+  forallb junk_option ts = true -> set_options_loop cfg ts = Ok cfg.
+Proof.
+  induction ts as [|t r IH]; intros H; cbn [set_options_loop]; [reflexivity|].
+  cbn [forallb] in H. apply andb_true_iff in H as [Ht Hr].
+  destruct (process_option_junk cfg t Ht) as [->|(st & -> & Hst)]; [apply IH; exact Hr|].
+  destruct (Z.eqb_spec st ARES_ENOMEM); [congruence|]. apply IH; exact Hr.
+Qed.
+
+Lemma dispatch_options_junk fx ifs cfg rest1 v1 vr :
+  forallb junk_option (buf_split s_sep_ws true false false 0 (v1 :: vr)) = true ->
+  resolv_dispatch nf fx ifs cfg k_options rest1 (v1 :: vr) = Ok cfg.
+Proof.
+  intros H. unfold resolv_dispatch, kw. simpl (bytes_eqb k_options _). cbn [orb].
+  unfold set_options. apply set_options_loop_junk. exact H.
+Qed.
+
+(* ------------------------------------------------------------------ search / domain naming nothing *)
+Lemma config_search_empty cfg v n :
+  buf_split s_sep_domains false true true 0 v = [] -> config_search cfg v n = Ok cfg.
+Proof.
+  intros H. unfold config_search. destruct v; [reflexivity|]. unfold buf_split_str. rewrite H. reflexivity.
+Qed.
+
+Lemma dispatch_search_empty fx ifs cfg k rest1 v :
+  k = k_search \/ k = k_domain -> buf_split s_sep_domains false true true 0 v = [] ->
+  resolv_dispatch nf fx ifs cfg k rest1 v = Ok cfg.
+Proof.
+  intros [->| ->] H; unfold resolv_dispatch, kw; simpl (bytes_eqb _ _); cbn [orb].
+  - apply config_search_empty; exact H.
+  - destruct (s_domains cfg); [apply config_search_empty; exact H|reflexivity].
+Qed.
+
+(* ------------------------------------------------------------------ junk in the environment *)
+Lemma junk_localdomain_identity cfg v n : junk_localdomain v = true -> config_search cfg v n = Ok cfg.
+Proof.
+  unfold junk_localdomain, config_search, buf_split_str. destruct v as [|v0 vr]; [reflexivity|].
+  destruct (buf_split s_sep_domains false true true 0 (v0 :: vr)) as [|s0 sr]; [reflexivity|].
+  intros H. apply negb_true_iff in H. rewrite H. reflexivity.
+Qed.
+
+Lemma junk_res_options_identity cfg v : junk_res_options v = true -> set_options cfg v = Ok cfg.
+Proof. unfold junk_res_options, set_options. destruct v; [reflexivity|]. apply set_options_loop_junk. Qed.
+
+(* LOCALDOMAIN / RES_OPTIONS holding junk behave as if they were unset *)
+Theorem junk_env_is_identity cfg l r :
+  (forall v, l = Some v -> junk_localdomain v = true) -> (forall v, r = Some v -> junk_res_options v = true) ->
+  init_by_environment cfg l r = init_by_environment cfg None None.
+Proof.
+  intros Hl Hr. unfold init_by_environment.
+  destruct l as [v|]; [rewrite (junk_localdomain_identity cfg v 1 (Hl v eq_refl))|]; cbn [bind];
+    (destruct r as [w|]; [apply junk_res_options_identity; apply Hr; reflexivity|reflexivity]).
+Qed.
+
+(* ------------------------------------------------------------------ C15_junk_independent (line level) *)
 Theorem junk_line_is_identity ifs cfg l j :
-  junk_class_resolv l = Some j -> proved_class j = true ->
-  parse_resolv_line nf ifs cfg l = Ok cfg.
+  junk_class_resolv l = Some j -> parse_resolv_line nf ifs cfg l = Ok cfg.
 Proof.
   unfold parse_resolv_line, sortlist_fixed. destruct l as [|c r]; [reflexivity|].
   unfold junk_class_resolv.
-  destruct ((c =? ch_hash) || (c =? ch_semi)) eqn:Hc; [intros _ _; apply junk_comment; exact Hc|].
+  destruct ((c =? ch_hash) || (c =? ch_semi)) eqn:Hc; [intros _; apply junk_comment; exact Hc|].
   destruct (negb (forallb isprint (keyword_of (c :: r))) || negb (forallb isprint (rest_of (c :: r)))) eqn:Hp.
-  { intros _ _. apply junk_unprintable; [exact Hc|]. apply orb_true_iff in Hp as [Hp|Hp]; apply negb_true_iff in Hp; auto. }
+  { intros _. apply junk_unprintable; [exact Hc|]. apply orb_true_iff in Hp as [Hp|Hp]; apply negb_true_iff in Hp; auto. }
   apply orb_false_iff in Hp as [Hp1 Hp2]. apply negb_false_iff in Hp1, Hp2.
   destruct (negb (existsb (bytes_eqb (keyword_of (c :: r))) known_keywords)) eqn:Hk.
-  { intros _ _. apply junk_unknown_keyword; [exact Hc|]. apply negb_true_iff in Hk. exact Hk. }
+  { intros _. apply junk_unknown_keyword; [exact Hc|]. apply negb_true_iff in Hk. exact Hk. }
   apply negb_false_iff in Hk.
   destruct (Nat.leb_spec 512 (length (rest_of (c :: r)))) as [Hl|Hl].
-  { intros _ _. apply junk_overlong; assumption. }
+  { intros _. apply junk_overlong; assumption. }
   destruct (arg_of (c :: r)) as [|v1 vr] eqn:Ha.
-  { intros _ _. apply junk_noarg; assumption. }
-  (* the keyword is known and fits, the value is printable and fits: the dispatch is reached *)
+  { intros _. apply junk_noarg; assumption. }
   assert (exists o, fetch_string 32 (keyword_of (c :: r)) = Ok o) as [o Eo].
   { unfold fetch_string. rewrite Hp1.
     assert (length (keyword_of (c :: r)) <= 12)%nat as Hlen.
@@ -330,22 +497,24 @@ Proof.
   destruct (bytes_eqb (keyword_of (c :: r)) k_nameserver) eqn:E1.
   { apply bytes_eqb_eq in E1. rewrite E1.
     destruct (forallb cannot_start_server (tokens s_sep_servers (v1 :: vr))) eqn:Et; [|discriminate].
-    intros _ _. apply dispatch_nameserver_junk. exact Et. }
+    intros _. apply dispatch_nameserver_junk. exact Et. }
   destruct (bytes_eqb (keyword_of (c :: r)) k_sortlist) eqn:E2.
   { apply bytes_eqb_eq in E2. rewrite E2.
     destruct (tokens s_sep_sortlist (v1 :: vr)) as [|t ts] eqn:Et; [discriminate|].
     destruct (cannot_start_pattern t) eqn:Eb; [|discriminate].
-    intros _ _. eapply dispatch_sortlist_junk; eassumption. }
+    intros _. eapply dispatch_sortlist_junk; eassumption. }
   destruct (bytes_eqb (keyword_of (c :: r)) k_options) eqn:E3.
   { apply bytes_eqb_eq in E3. rewrite E3.
     destruct (forallb junk_option_plain (buf_split s_sep_ws true false false 0 (v1 :: vr))) eqn:Et.
-    - intros _ _. apply dispatch_options_plain. exact Et.
-    - destruct (forallb junk_option (buf_split s_sep_ws true false false 0 (v1 :: vr))); [|discriminate].
-      intros Hj Hpc. inversion Hj; subst j. discriminate. }
+    - intros _. apply dispatch_options_plain. exact Et.
+    - destruct (forallb junk_option (buf_split s_sep_ws true false false 0 (v1 :: vr))) eqn:Et2; [|discriminate].
+      intros _. apply dispatch_options_junk. exact Et2. }
   destruct (bytes_eqb (keyword_of (c :: r)) k_search || bytes_eqb (keyword_of (c :: r)) k_domain) eqn:E4.
-  { destruct (tokens s_sep_domains (v1 :: vr)); [|discriminate]. intros Hj Hpc. inversion Hj; subst j. discriminate. }
+  { destruct (buf_split s_sep_domains false true true 0 (v1 :: vr)) eqn:Es; [|discriminate]. intros _.
+    apply dispatch_search_empty; [|exact Es].
+    apply orb_true_iff in E4 as [E4|E4]; apply bytes_eqb_eq in E4; auto. }
   destruct (forallb _ (buf_split s_sep_ws true false false 0 (rest_of (c :: r)))) eqn:Et; [|discriminate].
-  intros _ _. apply dispatch_lookup_noword; [|exact Et].
+  intros _. apply dispatch_lookup_noword; [|exact Et].
   unfold known_keywords in Hk. cbn [existsb] in Hk. rewrite !orb_false_r in Hk.
   apply orb_false_iff in E4 as [E4a E4b].
   repeat (apply orb_true_iff in Hk as [Hk|Hk]); try congruence; apply bytes_eqb_eq in Hk; auto.
@@ -362,9 +531,9 @@ Proof.
 Qed.
 
 Theorem junk_lines_independent ifs cfg l1 j l2 cls :
-  junk_class_resolv j = Some cls -> proved_class cls = true ->
+  junk_class_resolv j = Some cls ->
   process_lines (parse_resolv_line nf ifs) cfg (l1 ++ j :: l2) = process_lines (parse_resolv_line nf ifs) cfg (l1 ++ l2).
-Proof. intros H1 H2. apply process_lines_skip. intros c. eapply junk_line_is_identity; eassumption. Qed.
+Proof. intros H1. apply process_lines_skip. intros c. eapply junk_line_is_identity; eassumption. Qed.
 
 End WithNet.
 
@@ -419,11 +588,11 @@ Variable nf : netfns.
    after trimming) anywhere in a resolv.conf gives the same system configuration *)
 Theorem junk_file_independent ifs cfg rs1 j rs2 cls :
   Forall no_nl rs1 -> no_nl j -> Forall no_nl rs2 ->
-  junk_class_raw j = Some cls -> proved_class cls = true ->
+  junk_class_raw j = Some cls ->
   process_buf (parse_resolv_line nf ifs) cfg (unlines (rs1 ++ j :: rs2)) =
   process_buf (parse_resolv_line nf ifs) cfg (unlines (rs1 ++ rs2)).
 Proof.
-  intros F1 Fj F2 Hj Hc. unfold process_buf.
+  intros F1 Fj F2 Hj. unfold process_buf.
   rewrite !file_lines_unlines.
   2:{ apply Forall_app. split; assumption. }
   2:{ apply Forall_app. split; [assumption|constructor; assumption]. }
